@@ -227,6 +227,105 @@ pub fn print_list<S: Src>(s: &mut S) {
     }
 }
 
+
+/// JSON conversion (the property's second clause) for the scalar kinds: `into_json` (the real
+/// `Serialize for ConstValue` driven by serde_json's value serializer) yields the JSON value
+/// of the same kind and content, and `from_json` (the real `Deserialize for ConstValue`
+/// visitor driven by serde_json's value deserializer) yields the value back.
+pub fn json_bool_null<S: Src>(s: &mut S) {
+    use std::mem::ManuallyDrop as MD;
+    let b = s.bool();
+    cover!(b, "true");
+    let j = MD::new(ConstValue::Boolean(b).into_json());
+    assert!(matches!(&*j, Ok(serde_json::Value::Bool(x)) if *x == b), "Boolean -> JSON bool");
+    let back = MD::new(ConstValue::from_json(serde_json::Value::Bool(b)));
+    assert!(matches!(&*back, Ok(ConstValue::Boolean(x)) if *x == b), "JSON bool -> Boolean");
+    let j = MD::new(ConstValue::Null.into_json());
+    assert!(matches!(&*j, Ok(serde_json::Value::Null)), "Null -> JSON null");
+    let back = MD::new(ConstValue::from_json(serde_json::Value::Null));
+    assert!(matches!(&*back, Ok(ConstValue::Null)), "JSON null -> Null");
+}
+
+/// Every i64, every u64 and every finite f64: Number -> JSON number -> Number is the identity
+/// (compared through the exact accessors of serde_json::Number).
+pub fn json_numbers<S: Src>(s: &mut S) {
+    use std::mem::ManuallyDrop as MD;
+    let i = s.i64();
+    cover!(i < 0, "negative integer");
+    let j = MD::new(ConstValue::Number(Number::from(i)).into_json());
+    match &*j {
+        Ok(serde_json::Value::Number(n)) => assert!(n.as_i64() == Some(i), "i64 -> JSON"),
+        _ => assert!(false, "integer must become a JSON number"),
+    }
+    let back = MD::new(ConstValue::from_json(serde_json::Value::Number(Number::from(i))));
+    match &*back {
+        Ok(ConstValue::Number(n)) => assert!(n.as_i64() == Some(i), "JSON -> i64"),
+        _ => assert!(false, "JSON integer must become a Number"),
+    }
+    let u = s.u64();
+    cover!(u > i64::MAX as u64, "above i64::MAX");
+    let j = MD::new(ConstValue::Number(Number::from(u)).into_json());
+    match &*j {
+        Ok(serde_json::Value::Number(n)) => assert!(n.as_u64() == Some(u), "u64 -> JSON"),
+        _ => assert!(false, "unsigned must become a JSON number"),
+    }
+    let back = MD::new(ConstValue::from_json(serde_json::Value::Number(Number::from(u))));
+    match &*back {
+        Ok(ConstValue::Number(n)) => assert!(n.as_u64() == Some(u), "JSON -> u64"),
+        _ => assert!(false, "JSON unsigned must become a Number"),
+    }
+    let f = s.f64();
+    s.assume(f.is_finite());
+    if let Some(nf) = Number::from_f64(f) {
+        let j = MD::new(ConstValue::Number(nf.clone()).into_json());
+        match &*j {
+            Ok(serde_json::Value::Number(n)) => {
+                assert!(n.is_f64() && n.as_f64().map(f64::to_bits) == Some(f.to_bits()), "f64 -> JSON")
+            }
+            _ => assert!(false, "float must become a JSON number"),
+        }
+        let back = MD::new(ConstValue::from_json(serde_json::Value::Number(nf)));
+        match &*back {
+            Ok(ConstValue::Number(n)) => {
+                assert!(n.is_f64() && n.as_f64().map(f64::to_bits) == Some(f.to_bits()), "JSON -> f64")
+            }
+            _ => assert!(false, "JSON float must become a Number"),
+        }
+    }
+}
+
+/// A one-character ASCII string converts to the JSON string with the same byte and back to a
+/// String; the enum value of that name (a letter) converts to the JSON *string* of that name.
+pub fn json_string_enum<S: Src>(s: &mut S) {
+    use std::mem::ManuallyDrop as MD;
+    let c = s.u8();
+    s.assume(c < 0x80);
+    cover!(c == b'"', "a quote");
+    cover!(c == 0x1B, "a control character");
+    let st = unsafe { String::from_utf8_unchecked(vec![c]) };
+    let j = MD::new(ConstValue::String(st).into_json());
+    match &*j {
+        Ok(serde_json::Value::String(t)) => {
+            assert!(t.len() == 1 && t.as_bytes()[0] == c, "String -> JSON string");
+            let back = MD::new(ConstValue::from_json(serde_json::Value::String(t.clone())));
+            match &*back {
+                Ok(ConstValue::String(u)) => assert!(u.len() == 1 && u.as_bytes()[0] == c, "JSON string -> String"),
+                _ => assert!(false, "JSON string must become a String"),
+            }
+        }
+        _ => assert!(false, "String must become a JSON string"),
+    }
+    let l = s.u8();
+    s.assume((l >= b'A' && l <= b'Z') || (l >= b'a' && l <= b'z') || l == b'_');
+    let name = unsafe { String::from_utf8_unchecked(vec![l]) };
+    let e = MD::new(ConstValue::Enum(Name::new(name)));
+    let j = MD::new((*e).clone().into_json());
+    match &*j {
+        Ok(serde_json::Value::String(t)) => assert!(t.len() == 1 && t.as_bytes()[0] == l, "Enum -> JSON string of its name"),
+        _ => assert!(false, "Enum must become a JSON string"),
+    }
+}
+
 harnesses! {
     #[kani::unwind(6)] c15_quote_c0 => quote_c0;
     #[kani::unwind(6)] c15_quote_ascii => quote_ascii;
@@ -235,4 +334,7 @@ harnesses! {
     #[kani::unwind(6)] c15_quote_astral => quote_astral;
     #[kani::unwind(6)] c15_print_scalars => print_scalars;
     #[kani::unwind(6)] c15_print_list => print_list;
+    #[kani::unwind(4)] #[kani::stub(std::fmt::format, crate::stubs::fmt_stub)] c15_json_bool_null => json_bool_null;
+    #[kani::unwind(4)] #[kani::stub(std::fmt::format, crate::stubs::fmt_stub)] c15_json_numbers => json_numbers;
+    #[kani::unwind(4)] #[kani::stub(std::fmt::format, crate::stubs::fmt_stub)] c15_json_string_enum => json_string_enum;
 }
